@@ -53,12 +53,14 @@ extern "C" void harness() {
   for (int i = NC; i < n; ++i) {   // fixed cells: anywhere, obstruction or not
 #ifdef FIXEDFULL
     int wi = __verif_nondet_int(1, 20); int hi = 25; int xi = __verif_nondet_int(0, XLIM); int yi = -2;   // covers every row: splits them in two segments
+#elif defined(FIXEDPART)
+    int wi = __verif_nondet_int(1, 40); int hi = RH; int xi = __verif_nondet_int(-8, XLIM); int yi = __verif_choice(2) * RH;   // covers part of ONE row: stacked rows with different free intervals
 #else
     int wi = __verif_nondet_int(0, 40); int hi = __verif_nondet_int(0, 25); int xi = __verif_nondet_int(-XLIM, 2 * XLIM); int yi = __verif_nondet_int(-XLIM, 2 * XLIM);
 #endif
     w.push_back(wi); h.push_back(hi); x.push_back(xi); y.push_back(yi); pol.push_back(CellRowPolarity::ANY); orient.push_back(CellOrientation::N);
     fx[i] = true;
-#ifdef FIXEDFULL
+#if defined(FIXEDFULL) || defined(FIXEDPART)
     ob[i] = true;
 #else
     ob[i] = __verif_choice(2) != 0;
